@@ -355,6 +355,11 @@ pub fn check(res: &RunResult, cfg: &NodeCfg, model: &mut Model) -> Findings {
     for e in order {
         let t = e.query.delivered_ms[0];
         let src = e.query.src;
+        // C05 quantifies over transaction ids of 0..32 bytes; longer ones (whose echo may not even fit a
+        // datagram) are only subject to the size monitor
+        if e.parsed.tid.len() > 32 {
+            continue;
+        }
         let expect_reply = !cfg.read_only && e.well_formed;
         if !expect_reply {
             if !e.replies.is_empty() {
